@@ -97,12 +97,8 @@ def run(c, facts, tier):
             c.ob("C20.one-hole", "CompiledExpression::scheme", "the path is the first argument of lipe-scan", bool(args) and args[0] == '"{%s}"' % emit.canon(h) and sum(1 for a in args if "@" in a) == 1, "lipe-scan arguments: %s" % args)
             # no other hole depends on mdt: all others are self.fields (checked above)
             # C20.decodes
-            sani = json.load(open(c04.SANI))
-            good = {}
-            for ent in sani["sanitisers"]:
-                ok, det = c04.verify_sanitiser(facts, ent)
-                if ok and (not ent.get("compose") or ent["compose"] in good):
-                    good[ent["fn"]] = set(ent["map"])
+            good_full, _, _ = c04.verified_sanitisers(facts)
+            good = {k: v[1] for k, v in good_full.items() if v[0] == "string"}
             callee = h.get("callee") if h.get("kind") == "call" else None
             raw = h.get("kind") == "param"
             okd = callee in good and {'"', "\\"} <= good[callee]
